@@ -30,7 +30,7 @@ impl Property for C09 {
         "families: polynomial least squares with K=2..6 coefficients on 1.5K..200 abscissae centred at c in [-1.5,1.5] with half-width 0.2..2 (asymmetric, clustered, repeated values), coefficients +-10, optional positive weights 0.05..20, exact samples or +-1 noise (cases with normal-matrix condition > 1e10 discarded and counted); two-point lines; circle fits on arcs of 60..360 degrees, 5..200 points, guess within 0.5R / 0.5-2x radius, All and Gaussian(sigma>=2) modes, exact or noisy; seeded RANSAC with >=50% exact inliers; mean/variance/median. Oracle: recovery of the generating polynomial/circle, weighted normal equations (residual orthogonal to every monomial), QR reference solve, stationarity of the radial objective, inlier count. Non-trivial: abscissae not symmetric about 0 (|centre| > 0.1 half-width) and, when weighted, max/min weight >= 2; circles not centred at the origin. Distinct = distinct canonical JSON."
     }
     fn cases(t: Tier) -> u32 {
-        t.pick(200_000, 6_000_000)
+        t.pick(1_000_000, 6_000_000)
     }
     fn expected_labels() -> Vec<&'static str> {
         vec!["poly_exact", "poly_noisy", "weighted", "K=2", "K=3", "K=4", "K=5", "K=6", "best_fit_line", "line_2pts", "circle_exact", "circle_noisy", "circle_gaussian", "ransac", "stats", "asymmetric"]
